@@ -408,6 +408,12 @@ func normalizeSetField(
 	}
 
 	p := parsePathWithOpts(name, opts)
+	if throughReference(cfg, p) {
+		// like a key below a primitive: the setting is defined twice. (The
+		// reference is not evaluated: what it resolves to in the half-built
+		// config depends on which keys of the input have been met so far.)
+		return conflictWithPrimitive(cfg, name, val)
+	}
 	old, err := p.GetValue(cfg, opts)
 	if err != nil {
 		switch {
@@ -449,6 +455,32 @@ func throughPrimitive(err Error) bool {
 	switch err.Reason() {
 	case ErrExpectedObject, ErrTypeNoArray, ErrTypeMismatch:
 		return true
+	}
+	return false
+}
+
+// throughReference: the path of a key runs through a setting to which the
+// same input gives a reference or another expansion as value.
+func throughReference(cfg *Config, p cfgPath) bool {
+	cur := cfg
+	for _, f := range p.fields[:len(p.fields)-1] {
+		var v value
+		switch f := f.(type) {
+		case namedField:
+			v, _ = cur.fields.get(f.name)
+		case idxField:
+			if arr := cur.fields.array(); f.i >= 0 && f.i < len(arr) {
+				v = arr[f.i]
+			}
+		}
+		if _, ok := v.(*cfgDynamic); ok {
+			return true
+		}
+		sub, ok := v.(cfgSub)
+		if !ok {
+			return false
+		}
+		cur = sub.c
 	}
 	return false
 }
